@@ -77,7 +77,11 @@ class C17(Prop):
         if case.get("share"):
             a, b = _alias(a), _alias(b)     # equal mappings inside one argument become one object
         a0, b0 = copy.deepcopy(a), copy.deepcopy(b)
-        res = merge_config(a, b)
+        try:
+            res = merge_config(a, b)
+        except Exception as e:  # noqa: BLE001 - every input generated here (mappings, None) has a merge
+            return {"raised": repr(e), "out": {"o": "raised " + type(e).__name__}, "overlap": None, "is_dict": False,
+                    "args_unchanged": a == a0 and b == b0, "fresh": True, "expected": to_cfg(spec_merge(a0, b0))}
         overlap = _overlapping_calls(merge_config, a, b) if case.get("threads") else None
         return {
             "overlap": None if overlap is None else [to_cfg(r) if isinstance(r, dict) else {"o": repr(r)} for r in overlap],
@@ -98,6 +102,8 @@ class C17(Prop):
 
     def monitor(self, case, impl):
         fails = []
+        if impl.get("raised"):
+            return [f"merge_config raised {impl['raised']} on two arguments that are mappings or None"]
         if impl["out"] != impl["expected"]:
             fails.append("result differs from the documented right-biased deep merge")
         if not impl["args_unchanged"]:
